@@ -113,6 +113,12 @@ func (fc *FnCtx) acquire(st *State, mi *monInfo) {
 			fc.havocRegion(st, region{key: key, sort: sort})
 		}
 	}
+	for _, c := range fc.condsOf(mi) {
+		cref := fc.condRef(st, mi, c)
+		for _, key := range []string{"$condsleep", "$condwoken"} {
+			fc.havocRegion(st, region{key: key, sort: "(Array Int Int)", base: cref})
+		}
+	}
 	if mi.mon != nil {
 		env := fc.monitorEnv(st, mi)
 		for _, h := range mi.mon.Havoc {
@@ -149,6 +155,10 @@ func (fc *FnCtx) heldGet(st *State, addr string) string {
 	return app("select", fc.heapGet(st, "$held", heldSort), addr)
 }
 func (fc *FnCtx) heldSet(st *State, addr, v string) {
+	if fc.touchedMu == nil {
+		fc.touchedMu = map[string]bool{}
+	}
+	fc.touchedMu[addr] = true
 	fc.heapSet(st, "$held", heldSort, app("store", fc.heapGet(st, "$held", heldSort), addr, v))
 }
 
@@ -177,6 +187,53 @@ func (fc *FnCtx) builtinExtern(st *State, callee *types.Func, recv *Val, args []
 	case "(*sync.Mutex).Unlock", "(*sync.RWMutex).Unlock", "(*sync.RWMutex).RUnlock", "(sync.Locker).Unlock":
 		mi := fc.lockTarget(st, call)
 		return fc.doUnlock(st, full, recv.T, mi, call.Pos()), true
+	case "(*sync.Cond).Wait":
+		fc.externsUsed["sync.Cond model: ghost counters sleepers/woken; Wait = sleepers++, release, re-acquire after a signal (woken > 0), woken-- (trusted)"] = true
+		mi, _ := fc.condOwner(st, recv, call)
+		if mi == nil {
+			fc.fail(call.Pos(), "Cond.Wait: no `cond T.f uses T.mu` declaration matches (outside subset)")
+		}
+		muIdx := fieldIndex(mi.owner, mi.field)
+		addr := fc.fieldAddr(st, mi.base, muIdx, call.Pos()).T
+		fc.assert(st, app("=", fc.heldGet(st, addr), "1"), "lock-held", "Cond.Wait is called with its mutex held", call.Pos())
+		c := recv.T
+		S := fc.heapGet(st, "$condsleep", "(Array Int Int)")
+		fc.heapSet(st, "$condsleep", "(Array Int Int)", app("store", S, c, app("+", app("select", S, c), "1")))
+		fc.release(st, mi, call.Pos())
+		fc.acquire(st, mi)
+		W := fc.heapGet(st, "$condwoken", "(Array Int Int)")
+		fc.assume(st, app(">", app("select", W, c), "0")) // Wait only returns after a Signal/Broadcast reached this waiter
+		fc.heapSet(st, "$condwoken", "(Array Int Int)", app("store", W, c, app("-", app("select", W, c), "1")))
+		st.csSnap = nil
+		st.csSnap = st.clone()
+		return nil, true
+	case "(*sync.Cond).Signal", "(*sync.Cond).Broadcast":
+		fc.externsUsed["sync.Cond model: Signal moves one sleeper to woken, Broadcast moves all (trusted)"] = true
+		if mi, _ := fc.condOwner(st, recv, call); mi != nil {
+			muIdx := fieldIndex(mi.owner, mi.field)
+			addr := fc.fieldAddr(st, mi.base, muIdx, call.Pos()).T
+			fc.assert(st, app("=", fc.heldGet(st, addr), "1"), "lock-held", "Signal/Broadcast happens with the monitor's mutex held (required for the ghost-counter argument)", call.Pos())
+		}
+		c := recv.T
+		S := fc.heapGet(st, "$condsleep", "(Array Int Int)")
+		W := fc.heapGet(st, "$condwoken", "(Array Int Int)")
+		s0, w0 := app("select", S, c), app("select", W, c)
+		if full == "(*sync.Cond).Signal" {
+			some := app(">", s0, "0")
+			fc.heapSet(st, "$condsleep", "(Array Int Int)", app("store", S, c, ite(some, app("-", s0, "1"), s0)))
+			fc.heapSet(st, "$condwoken", "(Array Int Int)", app("store", W, c, ite(some, app("+", w0, "1"), w0)))
+		} else {
+			fc.heapSet(st, "$condsleep", "(Array Int Int)", app("store", S, c, "0"))
+			fc.heapSet(st, "$condwoken", "(Array Int Int)", app("store", W, c, app("+", w0, s0)))
+		}
+		return nil, true
+	case "sync.NewCond":
+		r := fc.allocRef(st, "cond")
+		for _, key := range []string{"$condsleep", "$condwoken"} {
+			A := fc.heapGet(st, key, "(Array Int Int)")
+			fc.heapSet(st, key, "(Array Int Int)", app("store", A, r, "0"))
+		}
+		return []Val{{T: r, Ty: callee.Type().(*types.Signature).Results().At(0).Type()}}, true
 	case "(*sync.Mutex).TryLock":
 		fc.fail(call.Pos(), "TryLock (outside subset)")
 	case "(*sync.Once).Do":
@@ -418,4 +475,80 @@ func (fc *FnCtx) checkFrameKey(st *State, key, base, what string, pos token.Pos)
 		alts = append(alts, app("=", base, r.base))
 	}
 	fc.assertNamed(st, or(alts...), "frame", "", what+" is covered by the modifies clause", pos)
+}
+
+func fieldIndex(owner types.Type, name string) int {
+	s, _ := owner.Underlying().(*types.Struct)
+	if s == nil {
+		return -1
+	}
+	for i := 0; i < s.NumFields(); i++ {
+		if s.Field(i).Name() == name {
+			return i
+		}
+	}
+	return -1
+}
+
+func (fc *FnCtx) condsOf(mi *monInfo) []CondDecl {
+	n, ok := mi.owner.(*types.Named)
+	if !ok || mi.cs == nil {
+		return nil
+	}
+	var out []CondDecl
+	for _, c := range mi.cs.Conds {
+		if c.Type == n.Obj().Name() && c.MuField == mi.field {
+			out = append(out, c)
+		}
+	}
+	return out
+}
+
+// condRef: the *sync.Cond stored in field c.Field of the monitor's owner.
+func (fc *FnCtx) condRef(st *State, mi *monInfo, c CondDecl) string {
+	idx := fieldIndex(mi.owner, c.Field)
+	fc.inSpec++
+	v := fc.fieldOf(st, mi.base, idx, token.NoPos)
+	fc.inSpec--
+	return v.T
+}
+
+// condOwner: the monitor a Cond method call belongs to. The cond must be the one stored in the declared
+// field of the current method's receiver (obligation), e.g. `c := q.popable; c.Wait()` inside a method of q.
+func (fc *FnCtx) condOwner(st *State, recv *Val, call *ast.CallExpr) (*monInfo, CondDecl) {
+	sig := fc.fn.Type().(*types.Signature)
+	r := sig.Recv()
+	if r == nil {
+		return nil, CondDecl{}
+	}
+	base, ok := st.vars[r]
+	if !ok {
+		return nil, CondDecl{}
+	}
+	sT, owner, isPtr := structOf(base.Ty)
+	if sT == nil || !isPtr {
+		return nil, CondDecl{}
+	}
+	n, ok := owner.(*types.Named)
+	if !ok {
+		return nil, CondDecl{}
+	}
+	cs := fc.eng.contractsForPkg(n.Obj().Pkg())
+	if cs == nil {
+		return nil, CondDecl{}
+	}
+	for _, c := range cs.Conds {
+		if c.Type != n.Obj().Name() {
+			continue
+		}
+		mi := &monInfo{owner: owner, field: c.MuField, base: base, cs: cs}
+		for _, m := range cs.Monitors {
+			if m.Type == c.Type && m.MuField == c.MuField {
+				mi.mon = m
+			}
+		}
+		fc.assert(st, app("=", recv.T, fc.condRef(st, mi, c)), "cond", "the condition variable is the one of the receiver's monitor ("+c.Type+"."+c.Field+")", call.Pos())
+		return mi, c
+	}
+	return nil, CondDecl{}
 }
